@@ -307,7 +307,10 @@ def goal_behaviours(ctx, pid, toggles):
                 dleads.append({"invariant": "GSafe", "ops": ops, "toggles": dict(toggles), "ms": ms,
                                "consts": dict(c, Persistent="TRUE" if pers else "FALSE"),
                                "generated": r.generated, "distinct": r.distinct})
-            elif r.timed_out or r.error:
+            elif r.timed_out:
+                # a loaded machine must not turn a coverage aid into an inconclusive check
+                ctx.notes.append("coverage goal %s: TLC simulation timed out (goal behaviour not replayed in this run)" % goal)
+            elif r.error:
                 raise Inconclusive("goal search %s failed: %s\n%s" % (goal, r.error, r.out[-800:]))
             else:
                 ctx.notes.append("coverage goal %s not reached by TLC simulation within its budget" % goal)
